@@ -37,7 +37,7 @@ RECIPE2 = '''def recipe(field_indexes, box_array):
 
 
 def bounds(tier):
-    return {"depth": 3 if tier == "quick" else 4, "roots": ["2D", "3D two levels", "3D three levels", "chk2plt output"],
+    return {"depth": 3 if tier == "quick" else 5, "roots": ["2D", "3D two levels", "3D three levels", "chk2plt output"],
             "alphabet": "8 colander + 4 chef + 2 x (sibling + ancestors) combine events per state"}
 
 
